@@ -21,7 +21,7 @@
     K1D  a toggle qualifier's value comes back as the line feed                   (toggle_*)
     K1E  a double quote inside a quoted value ends the value                      (quote_*)
 -/
-import Gts.Lemmas.GbRecord
+import Gts.Lemmas.GbReadWrite
 namespace Gts.C01
 open Gts Gts.Pars Gts.GenBank
 
@@ -165,12 +165,6 @@ theorem accession_line_roundtrip (f : Fields) (l rest : Bytes) (stk : List Bytes
     accessionField 12 f ⟨bs "ACCESSION   " ++ (l ++ 10 :: rest), stk⟩ =
       (.ok ({ f with accession := l }, true), ⟨rest, stk⟩) :=
   GenBank.accession_roundtrip f l rest stk hl hrest
-
-/-- the ACCESSION line `GenBank.String` writes: accession, and ` REGION: a..b` for a sliced record -/
-def accessionLine (f : Fields) : Bytes :=
-  f.accession ++ match f.region with
-    | none => []
-    | some (h, t) => bs " REGION: " ++ itoaB (h + 1) ++ bs ".." ++ itoaB t
 
 /-- K1A, FULL STATEMENT (false): "the accession reads back".  For EVERY record with a region the
 re-read accession is longer than the written one. -/
@@ -335,5 +329,71 @@ theorem definition_section (length : Int) (v : Bytes) (hv : noCR v = true) : Sec
 theorem record_end (length : Int) (k : Nat) (s : Sub) (rest : Bytes) :
     recordLoop length 12 (k + 1) s ⟨bs "//\n" ++ rest, []⟩ = (.ok s, ⟨rest, []⟩) :=
   loop_end length k s rest
+
+/-! ## the composition -/
+
+/-- **read (write r).**  For a record of the decidable domain `Writable reg r p` (`p` its residues;
+locations satisfy `LocRT`), `GenBank.String` succeeds and `GenBankParser`, run on that text followed
+by ANY further text `rest'`, returns `readBack reg r p`, consumes exactly the record's text, and
+ends with the registry `learnTable reg r.table ⊇ reg`.  `readBack` is the record itself except for
+the three known findings: accession with the REGION suffix and no region (K1A), species as wrapped
+(K1C), toggle values `\n` (K1D, in `readFeature`); the residues are kept as the written block. -/
+theorem read_write (reg : Registry) (r : Record) (p : Bytes) (ho : r.origin = .residues p)
+    (hw : Writable reg r p = true) (hloc : ∀ x ∈ r.table, LocRT x.loc) (rest' : Bytes) :
+    (∃ t, write reg r = .ok t ∧ t ≠ [] ∧
+      genbankParser reg ⟨t ++ rest', []⟩ = (.ok (readBack reg r p, learnTable reg r.table), ⟨rest', []⟩)) ∧
+    reg.le (learnTable reg r.table) :=
+  ⟨GenBank.read_write reg r p ho hw hloc rest', learnTable_le reg r.table⟩
+
+/-- **fidelity**, proved part: with no region (`noRegion`, K1A) and a species that fits its line
+(`fits`, K1C) the header fields that come back are the fields that were written; the table comes
+back feature by feature as `readFeature` (same key, same location, the qualifier items in order with
+`\n` for toggle values, K1D); the residues decode to the residues (C16). -/
+theorem read_write_faithful_partial (reg : Registry) (r : Record) (p : Bytes)
+    (noRegion : r.fields.region = none) (fits : wrapSpace r.fields.species = r.fields.species)
+    (hlen : p.length < 10 ^ 9) :
+    (readBack reg r p).fields = r.fields ∧ (readBack reg r p).table = r.table.map (readFeature reg) ∧
+    (readBack reg r p).origin.bytes = .ok p := by
+  obtain ⟨f, t, o⟩ := r
+  simp only at noRegion fits
+  refine ⟨?_, rfl, ?_⟩
+  · obtain ⟨a1, a2, a3, a4, a5, a6, a7, a8, a9, a10, a11, a12, a13, a14, a15, a16, a17, a18, a19, a20⟩ := f
+    simp only at noRegion fits
+    simp [readBack, accessionLine, noRegion, fits]
+  · by_cases hp : p.isEmpty = true
+    · have : p = [] := by simpa using hp
+      subst this
+      simp [readBack, OriginV.bytes, Origin.originBytes]
+    · simp [readBack, hp, OriginV.bytes, Origin.originBytes_originStream p hlen]
+
+/-- non-vacuity of `Writable`: a record with every header field, two references, a comment, an
+extra field, a CONTIG and 70 residues; and a record with nothing but a LOCUS line -/
+def sampleRecord : Record :=
+  ⟨{ Fields.empty with
+     locusName := bs "NC_001422", molecule := bs "ss-DNA", topology := 1, division := bs "PHG", date := ⟨2018, 7, 6⟩,
+     definition := bs "Coliphage phi-X174,\n  complete genome", accession := bs "NC_001422", version := bs "NC_001422.1",
+     dblink := [(bs "BioProject", bs "PRJNA14015"), (bs "KEGG BRITE", bs " NC_001422")],
+     keywords := [bs "RefSeq"], species := bs "Escherichia virus phiX174", organism := bs "Escherichia virus phiX174",
+     taxon := [bs "Viruses", bs "ssDNA viruses", bs "Microviridae"],
+     references := [⟨1, bs "(bases 1 to 70)", bs "Sanger,F.", [], bs "Nucleotide sequence", bs "J. Mol. Biol.", some (bs "731693"), []⟩,
+                    ⟨2, [], [], bs "NCBI", [], [], none, bs "REVIEWED REFSEQ"⟩],
+     comments := [bs "line one\n    indented line two"], extra := [(bs "PRIMARY", bs "x")],
+     contigAcc := bs "J02482.1", contigHead := 0, contigTail := 70 },
+   [], .residues (List.replicate 70 97)⟩
+
+example : Writable Registry.default sampleRecord (List.replicate 70 97) = true ∧
+    Writable Registry.default ⟨{ Fields.empty with locusName := bs "X", molecule := bs "DNA", date := ⟨1, 1, 1⟩ }, [], .residues []⟩ [] = true := by
+  decide +kernel
+
+/-- **Framing of multi-record streams**: every record is read from exactly its own text; a stream of
+`Writable` records (all qualifier names registered, so the registry does not change between the
+records) written with `WriteSeq` and read until the input is used up yields exactly the records, each
+as `readBack`, without error. -/
+theorem read_stream (reg : Registry) (rs : List (Record × Bytes))
+    (hall : ∀ x ∈ rs, x.1.origin = .residues x.2 ∧ Writable reg x.1 x.2 = true ∧ (∀ f ∈ x.1.table, LocRT f.loc) ∧
+      learnTable reg x.1.table = reg) :
+    ∃ t, writeAll reg (rs.map (·.1)) = .ok t ∧
+      readAll reg t = some (rs.map (fun x => readBack reg x.1 x.2), reg, true) :=
+  GenBank.read_stream reg rs hall
 
 end Gts.C01
